@@ -109,6 +109,21 @@ theorem honest_verify_ok {F : Type} [DecidableEq F] (enc : ClaimData → F)
     rw [List.find?_eq_none]; intro x _; simp [hst]
   rw [this]
 
+open AC.Verify AC.Create AC.CreatePlan in
+/-- **Same transcript order.** For every honest (credentials, schema) pair the statement-id markers
+(`append_message(b"", id)`: commitment, verifiable-encryption, encrypt-and-decrypt, then range statements)
+enter the prover's and the verifier's main transcript in the same order, whatever the listing order of the
+schema — a necessary condition for both sides to derive the same challenge. Tie: `tr.markers` (both model
+lists vs the markers in the merlin logs of the real `create` and `verify`). -/
+theorem create_verify_same_marker_order (types : String → List ClaimType) (creds : List (String × CredI))
+    (stmts : List CStmt) (hon : Honest creds stmts) :
+    createMarkers creds stmts = verifyMarkers (stmts.map (toV types)) :=
+  markers_agree types creds stmts hon
+
+example : AC.Create.createMarkers [("s", .sig [⟨11, none⟩, ⟨12, some 5⟩])]
+    [.range "r" "c" "s" 1 (some 0) (some 10), .simple .verenc "v" "s" 0, .simple .commitment "c" "s" 1, .sig "s" [] ["a", "b"] 2]
+    = ["v", "c", "r"] := by decide
+
 /-- `create` keeps the `IndexMap` order "range proofs, signature proofs, other predicates" whatever the
 listing order of the schema (here: range statement listed first) -/
 example : AC.Create.createProofs
